@@ -506,7 +506,9 @@ def shrink(runner: Runner, job: dict, sig: dict, budget: int = 48) -> dict:
     """delete files, then chunks of lines of each file, while the same failure (class, exception, frame) persists;
     the predicate is a plain `python -m mypy` run (observed child only for hangs, to read the stack dump)"""
     observed = sig["class"] in ("hang", "trace-rejected")
-    tmo = 12 if sig["class"] == "hang" else None
+    tmo = 8 if sig["class"] == "hang" else None
+    if sig["class"] == "hang":
+        budget = min(budget, 12)          # every probe of a hanging input costs its whole time limit
     used = [0]
 
     def fails(files: dict[str, str]) -> bool:
@@ -554,7 +556,7 @@ def handle_batch_failure(ctx: Ctx, runner: Runner, job: dict, res: dict, reason:
     sig["mode"] = "batch"
     # confirm outside the observer: a plain `python -m mypy` run, alone on the machine's terms (3 × the time limit)
     if sig["class"] == "hang":
-        again = runner.run(job["id"] + "_r", job["files"], job["flags"], observed=True, timeout=3 * runner.inner)
+        again = runner.run(job["id"] + "_r", job["files"], job["flags"], observed=True, timeout=2 * runner.inner)
         if again["rc"] is not None:
             ctx.count("slow_but_finished")
             ok = ctx.lean_driver("Driver/C20.lean", [obs_line(again)])[0]
@@ -1104,7 +1106,7 @@ def main(ctx: Ctx) -> None:
         "(harness/c20/instrument.py); failures are re-confirmed with a plain `python -m mypy` run before they are reported",
         "NOT modelled: parallel workers (-n), the `while True` of FineGrainedBuildManager.update (no cap in the source), "
         "checker-internal fix-points (loop / try-finally re-checking), recursion depth, well-formedness of message tuples (C13)")
-    ctx.assume("a run is a hang when it exceeds the time limit again when re-run alone with 3 × the limit",
+    ctx.assume("a run is a hang when it exceeds the CPU-time limit again when re-run alone with 2 × the limit",
                "daemon edits change the mtime of every written file (whole seconds apart)")
     caps_line = ctx.lean_driver("Driver/C20.lean", ["C"])[0] if proved else "(Lean build failed)"
     ctx.sample({"generated_caps": caps_line})
@@ -1143,7 +1145,7 @@ def search_without_lean(ctx: Ctx, runner: Runner) -> None:
         text = res["out"] + res["err"]
         if res["rc"] is None or res["rc"] not in (0, 1, 2) or "INTERNAL ERROR" in text or "Traceback (most recent call last)" in text:
             n += 1
-            if n <= 4:
+            if n <= 2:
                 handle_batch_failure_nolean(ctx, runner, job, res)
 
 
@@ -1151,7 +1153,7 @@ def handle_batch_failure_nolean(ctx: Ctx, runner: Runner, job: dict, res: dict) 
     sig = classify(res, "")
     sig["mode"] = "batch"
     if sig["class"] == "hang":
-        again = runner.run(job["id"] + "_r", job["files"], job["flags"], observed=True, timeout=3 * runner.inner)
+        again = runner.run(job["id"] + "_r", job["files"], job["flags"], observed=True, timeout=2 * runner.inner)
         if again["rc"] is not None:
             return
         sig = classify(again, "")
